@@ -71,17 +71,15 @@ class Layout(object):
                 blocks[t] = ModbusSequentialDataBlock(cells[0][0], [v for _, v in cells])
             else:
                 blocks[t] = ModbusSparseDataBlock(dict(cells))
-        # ModbusSlaveContext.__init__ allocates four 65536-cell default blocks on every call
-        # (kwargs.get evaluates its default); build the same object without that cost and
-        # check once per layout that the public constructor yields the same attributes.
-        ctx = ModbusSlaveContext.__new__(ModbusSlaveContext)
-        ctx.store = dict((t, blocks[t]) for t in TABLES)
-        ctx.zero_mode = self.zero_mode
-        if not getattr(self, '_ctor_checked', False):
-            real = ModbusSlaveContext(zero_mode=self.zero_mode, **dict((KW[t], blocks[t]) for t in TABLES))
-            assert set(vars(real)) == set(vars(ctx)) and real.zero_mode == ctx.zero_mode
-            assert all(real.store[t] is ctx.store[t] for t in TABLES), 'constructor wires tables differently'
-            self._ctor_checked = True
+        # ModbusSlaveContext.__init__ evaluates its four 65536-cell default blocks on every call even when all
+        # four tables are given; the real constructor is used, with only that default factory made cheap while
+        # it runs (the defaults themselves are exercised by the real-constructor sub-checks of C04 and C10)
+        orig = ModbusSequentialDataBlock.__dict__['create']
+        ModbusSequentialDataBlock.create = classmethod(lambda cls: _CHEAP_DEFAULT)
+        try:
+            ctx = ModbusSlaveContext(zero_mode=self.zero_mode, **dict((KW[t], blocks[t]) for t in TABLES))
+        finally:
+            ModbusSequentialDataBlock.create = orig
         return ctx
 
     def ref(self, state):
@@ -106,6 +104,9 @@ class Layout(object):
         return tuple(tuple(sorted((a, (bool(v) if t in BITS else v)) for a, v in store.t[t].items())) for t in TABLES)
 
 
+_CHEAP_DEFAULT = ModbusSequentialDataBlock(0, [0])
+
+
 def layouts():
     out = []
     for shape in (('seq', 0, 6), ('seq', 1, 6), ('seq', 3, 4), ('sparse', (1, 2, 3, 5, 6))):
@@ -128,3 +129,8 @@ def diff_tables(a, b):
             cell = sorted(k for k in dx if dx[k] != dy[k])[0]
             return t, 'cell'
     return None
+
+
+def wide_layouts():
+    """tables wide enough for every quantity that crosses a byte boundary several times"""
+    return [Layout(('seq', 0, 40), True, False), Layout(('seq', 1, 40), False, False)]
